@@ -71,6 +71,10 @@ def protocol_battery():
     for hdr_, row_ in (("A D_out Y", "1 7 X"), ("D_out", "7"), ("A E_out D", "1 X 3"), ("A D D_out E E_out", "0 1 X Z 2"), ("Y", "X")):
         b.append(Scenario("%s\n%s\n%s\n" % (hdr_, row_, row_), Sbd, default_answer=[0, 0, 0],
                           note="bidirectional signals named only by their _out column (or not at all) are still driven: header %s" % hdr_))
+    # sixth round: the same TestCase value was run before (other layouts): constructor call and one call per row all the same
+    for pre in ([["Q", "Y"]], [["Y"], []], [["?0", "Q", "Y"]]):
+        b.append(Scenario("CLK A Y\nC 0 1\n0 (Y) X\n", S, default_answer=[1, 0], pre_layouts=pre,
+                          expect={"call_kinds": ["read", "write", "write", "read", "read"]}, note="earlier runs with layouts %s" % pre))
     # sixth round: identical consecutive clocked rows through the PROVIDED write_input (no override): every phase is written
     b.append(Scenario("CLK A Y\nC 1 0\nC 1 0\nrepeat(2) C 1 0\n", S, default_answer=[0, 0], override_write=False,
                       expect={"call_kinds": ["read"] * 13}, note="identical clocked rows, provided write_input: three calls per row"))
@@ -175,6 +179,12 @@ def attribution_battery():
                       note="rows that repeat their inputs report the answer of their own call"))
     b.append(Scenario("Y B\nX X\nX X\n2 X\n", [("out", "Y", 8), ("out", "B", 8)], layout=["Y", "B"], default_answer=[0, 0],
                       answers={1: [1, 1], 2: [2, 2], 3: [3, 3]}, note="a test without input columns reports each call's answer"))
+    # sixth round: the same TestCase value run before by drivers with other layouts - attribution follows THIS driver's answer
+    for pre in ([["W", "D", "Q", "Y"]], [["Q"], ["Y", "Q", "D", "W"]], [["?0", "Y", "Q", "D"]]):
+        b.append(Scenario(prog, S, layout=["Y", "Q", "D", "W"], default_answer=[1, 2, 3, 4], pre_layouts=pre,
+                          answers={2: [7, 2, "Z", -1], 3: ["X", "Z", 3, 5]}, note="natural order after earlier runs with layouts %s" % pre))
+        b.append(Scenario(prog, S, layout=["Q", "W"], default_answer=[2, 4], pre_layouts=pre, answers={2: [3, -1]},
+                          note="subset layout after earlier runs with layouts %s" % pre))
     # fifth round: program variables and loop counters named like device outputs - the reported output is the device's
     Sv = [("in", "A", 8, 0), ("out", "Y", 8), ("out", "Q", 8), ("out", "i", 8), ("out", "n", 8)]
     b.append(Scenario("A Y Q i n\nlet Y = 3;\nlet Q = Y + 1;\n(Y) X X X X\nloop(i,2)\n(i) 5 6 X X\nend loop\nrepeat(2) (n) X X X 8\n", Sv,
